@@ -127,7 +127,12 @@ def parse_pyx(text, fname):
                 i += 1
             wrappers.append({"name": name, "args": args, "body": body, "file": fname})
             continue
-        i += 1
+        if re.match(r"(import\s|cimport\s|from\s+\S+\s+c?import\s|np\.import_array\(\)\s*$)", ln):
+            i += 1
+            continue
+        # anything else at top level (cdef / cpdef functions, classes, decorators, module-level statements) is not
+        # part of the regular shape this translator understands: refuse loudly rather than skip it
+        raise PyxError(f"{fname}: top-level statement not understood: {ln.strip()[:120]!r}")
     return externs, wrappers
 
 
@@ -260,7 +265,9 @@ def analyse(w, externs):
             continue
         raise PyxError(f"{w['name']}: statement not understood: {st!r}")
     if call is None:
-        return None
+        if w["name"] == "__cinit__" and w["body"] in (["pass"], []):
+            return None
+        raise PyxError(f"{w['name']}: no call of a `cdef extern` kernel found in the wrapper body")
     callee, actuals = call
     proto = externs[callee]
     if len(actuals) != len(proto["params"]):
@@ -422,9 +429,28 @@ def render(repo=None):
     return text, specs, externs
 
 
+def failure_text(err):
+    """a PyxSpec.lean that does NOT elaborate: the wrapper obligations of Props/C05.lean are then broken (the check
+    reports that the property is no longer shown to hold) instead of being silently proved about a stale or partial
+    translation"""
+    msg = str(err).replace("-/", "- /")
+    return ("/-\nGENERATED by harness/pyx2spec.py — TRANSLATION FAILED, the .pyx files no longer have the regular shape the\n"
+            "translator understands:\n  " + msg + "\n-/\nnamespace HydroVerif.Generated.PyxSpec\n\n"
+            "/-- deliberately ill-typed: see the message above -/\n"
+            "def translationFailed : Nat := \"" + msg.replace("\\", "/").replace('"', "'")[:300] + "\"\n\n"
+            "end HydroVerif.Generated.PyxSpec\n")
+
+
 def regen(ctx=None, repo=None):
-    """write the Lean file when (and only when) its text changes; returns True if it was rewritten"""
-    text, specs, externs = render(repo)
+    """write the Lean file when (and only when) its text changes; returns True if it was rewritten.
+    A .pyx the translator cannot parse does not stop the check: the generated file is replaced by one that does not
+    elaborate, so that every wrapper obligation is reported broken."""
+    try:
+        text, specs, externs = render(repo)
+    except PyxError as e:
+        text, specs, externs = failure_text(e), [], {}
+        if ctx is not None:
+            ctx.extra["translator_error"] = str(e)
     old = TARGET.read_text() if TARGET.exists() else None
     changed = old != text
     if changed:
